@@ -2,10 +2,14 @@ package kvstore
 
 import (
 	"encoding/binary"
+	"math"
 	"sync"
 
 	"github.com/iotaledger/hive.go/ierrors"
 )
+
+// ErrSequenceExhausted is returned by Next when no number is left that could be leased from the store.
+var ErrSequenceExhausted = ierrors.New("sequence exhausted")
 
 // Sequence represents a simple integer sequence backed by a KVStore.
 // A Sequence can be used to get a list of monotonically increasing integers.
@@ -90,6 +94,14 @@ func (seq *Sequence) update() error {
 
 	// reserve the interval and set in store
 	reserved := seq.next + seq.interval
+	if reserved < seq.next {
+		// next+interval does not fit into a uint64: lease what is left of the number space instead of
+		// wrapping around, which would persist a mark below numbers that were already handed out.
+		reserved = math.MaxUint64
+	}
+	if reserved == seq.next {
+		return ErrSequenceExhausted
+	}
 	var buf [8]byte
 	binary.BigEndian.PutUint64(buf[:], reserved)
 	err = seq.store.Set(seq.key, buf[:])
